@@ -81,8 +81,6 @@ func (c *cache) flushScheduler() {
 				flushB      bool
 			)
 
-			c.flushObjs.Store(addr, struct{}{})
-
 			flushB = addrs[addr] > c.maxFlushBatchThreshold && len(b) != 0
 			for !handledAddr || flushB {
 				if flushB {
@@ -108,6 +106,9 @@ func (c *cache) flushScheduler() {
 				if handledAddr {
 					break
 				}
+				// Mark the address only when it joins a batch: if the round
+				// is aborted below, exactly the queued addresses are unmarked.
+				c.flushObjs.Store(addr, struct{}{})
 				b = b[:len(b)+1]
 				bs += addrs[addr]
 				handledAddr = true
